@@ -87,6 +87,8 @@ pub fn energy_performance(
     // Compute balance for each carrier and accumulate partial balance values for total balance
     let mut balance_cr: HashMap<Carrier, BalanceCarrier> = HashMap::new();
     for cr in &components.available_carriers() {
+        #[cfg(feature = "verif_hooks")]
+        crate::verif::emit(|| serde_json::json!({"ev": "Carrier", "carrier": cr}));
         // Compute balance for this carrier ---
         let bal_cr = balance_for_carrier(*cr, &components, &wfactors, k_exp, load_matching)?;
         // Add up to the global balance
